@@ -47,11 +47,11 @@ def gen(chk, tier):
         else:
             sub = elems[:150]
             pairs = [(a, b) for a in sub for b in sub if (a + b) % 7 == 0 or a == b or a + b == m]
-        pairs += [(rng.randrange(m), rng.randrange(m)) for _ in range(60 if q else 5000)]
+        pairs += [(rng.randrange(m), rng.randrange(m)) for _ in range(60 if q else 40000)]
         pairs += [(a, m - a) for a in elems[1:12]] + [(a, a) for a in elems[:12]]
         # word-structured operands (limbs of 64/32/16/8 bits with zero halves, single bits, ...)
-        st = [v % m for v in limb_structured(rng, 30 if q else 600)]
-        pairs += [(rng.choice(st), rng.choice(st + elems)) for _ in range(40 if q else 1500)]
+        st = [v % m for v in limb_structured(rng, 30 if q else 2000)]
+        pairs += [(rng.choice(st), rng.choice(st + elems)) for _ in range(40 if q else 10000)]
         for v in limb_structured(rng, 10 if q else 200, maxbits=224):
             g.one("%s_setbytes_ge_m" % field, "fiat.setbytes", field=field, v=b32(m - 1 + v), recv=b32(rng.randrange(m)))
             g.one("%s_setbytes_lt_m" % field, "fiat.setbytes", field=field, v=b32(v % m), recv=b32(rng.randrange(m)))
@@ -70,10 +70,10 @@ def gen(chk, tier):
         Rinv_ = pow(Rm, -1, m)
         raws = [v for v in critical_elements(rng, m, 60 if q else 300) if v < m]
         rpairs = []
-        for _ in range(60 if q else 1500):
+        for _ in range(60 if q else 12000):
             ra, rb_ = rng.choice(raws), rng.choice(raws)
             rpairs.append((ra, rb_))
-        for _ in range(40 if q else 600):           # equal low limbs (1..3 of them), any order
+        for _ in range(40 if q else 5000):           # equal low limbs (1..3 of them), any order
             j = rng.randrange(1, 4)
             low = rng.choice([0, 1, (1 << (64 * j)) - 1, rng.getrandbits(64 * j)])
             ra = ((rng.getrandbits(256 - 64 * j) << (64 * j)) | low) % m
